@@ -46,3 +46,11 @@ Proof. unfold erase_key_gen, ss_erase_key, ss_find, ss_size, ss_elems, ss_erase_
     assert (Es : sset_ s = []) by (unfold ss_small in Hs; destruct (sset_ s); [reflexivity|discriminate]). rewrite Es. reflexivity.
   - unfold set_erase_key, fs_erase_key. destruct (Nat.eqb (fs_find cmp (sset_ s) v) (length (sset_ s))); reflexivity.
 Qed.
+
+(* copy assignment: the regenerated operator=(const SmallSet&); after an exception (whatever the two containers were left with)
+   both containers are emptied *)
+Theorem copy_assign_tv vec set ovec oset self :
+  copy_assign_gen vec set ovec oset self None = inl (if self then (vec, set) else (ovec, oset)).
+Proof. unfold copy_assign_gen. destruct self; reflexivity. Qed.
+Theorem copy_assign_thrown vec set ovec oset left : copy_assign_gen vec set ovec oset false (Some left) = inr ([], []).
+Proof. unfold copy_assign_gen. destruct left; reflexivity. Qed.
